@@ -3,6 +3,7 @@
 Object for defining the use-defined model.
 """
 from abc import ABC, abstractmethod
+from contextlib import contextmanager
 import datetime
 import logging
 import numpy as np
@@ -32,6 +33,20 @@ class OneDimensionalModelError(Exception):
     """Exception raised when the model is one-dimensional"""
 
     pass
+
+
+@contextmanager
+def _preserve_random_state():
+    """Restore the state of the global numpy random generator on exit.
+
+    Used for the vectorisation checks, which are only run once per model, so
+    that they do not change the random stream of a seeded run.
+    """
+    state = np.random.get_state()
+    try:
+        yield
+    finally:
+        np.random.set_state(state)
 
 
 class Model(ABC):
@@ -203,7 +218,8 @@ class Model(ABC):
         if self._vectorised_likelihood is None:
             if self.allow_vectorised:
                 # Avoids calling prior on multiple points
-                x = np.concatenate([self.new_point() for _ in range(10)])
+                with _preserve_random_state():
+                    x = np.concatenate([self.new_point() for _ in range(10)])
                 self._vectorised_likelihood = check_vectorised_function(
                     self.log_likelihood,
                     x,
@@ -223,7 +239,8 @@ class Model(ABC):
         if self._vectorised_prior is None:
             if self.allow_vectorised_prior:
                 # Avoids calling prior on multiple points
-                x = np.concatenate([self.new_point() for _ in range(10)])
+                with _preserve_random_state():
+                    x = np.concatenate([self.new_point() for _ in range(10)])
                 self._vectorised_prior = check_vectorised_function(
                     self.log_prior,
                     x,
@@ -243,7 +260,8 @@ class Model(ABC):
         if self._vectorised_prior_unit_hypercube is None:
             if self.allow_vectorised_prior:
                 # Avoids calling prior on multiple points
-                x = self.sample_unit_hypercube(n=10)
+                with _preserve_random_state():
+                    x = self.sample_unit_hypercube(n=10)
                 self._vectorised_prior_unit_hypercube = (
                     check_vectorised_function(
                         self.log_prior_unit_hypercube,
